@@ -1,4 +1,5 @@
-(** Term/PairPow.v — dual-cone pairing for the (rational-exponent) power cones of Term/Spec.v.
+(** Term/PairPow.v — dual-cone pairing and convexity for the power cones of Term/Spec.v
+    (rational exponents in algebraic form; arbitrary real exponents through Rpower).
     A. weighted AM-GM with natural weights (through 1 + t <= exp t, no logarithms),
     B. <s, z> >= 0 for s in the 3-d power cone and z in its dual,
     C. the same for the generalised power cone. *)
@@ -405,13 +406,8 @@ Proof.
   - apply Z2Nat.inj_lt; lia.
 Qed.
 
-Theorem pair_cone_pow (a : dy) (s z : list R) :
-  in_cone (KPow a) s -> in_dual (KPow a) z -> 0 <= dot OpsR s z.
-Proof.
-  intros [Hls Hs] [Hlz Hz].
-  destruct (alpha_pq a) as [[p q] | ] eqn:Ea; [ | contradiction].
-  apply alpha_pq_spec in Ea. apply (pair_pow p q); assumption.
-Qed.
+(** [pair_cone_pow] (every exponent, dyadic or not) is at the end of the file, after the
+    real-exponent pairing. *)
 
 (** * C. the generalised power cone *)
 Theorem pair_genpow (ps : list nat) (q : nat) (s z : list R) :
@@ -779,15 +775,7 @@ Proof.
   rewrite Rabs_mult, (Rabs_right t) by lra. lra.
 Qed.
 
-Theorem ray_cone_pow (a : dy) (u v : list R) (t : R) :
-  0 <= t -> in_cone (KPow a) u -> in_cone (KPow a) v ->
-  in_cone (KPow a) (vadd OpsR u (vscale OpsR t v)).
-Proof.
-  intros Ht [Hlu Hu] [Hlv Hv]. split.
-  - rewrite vadd_length; [exact Hlu | rewrite vscale_length; lia].
-  - destruct (alpha_pq a) as [[p q] | ] eqn:Ea; [ | contradiction].
-    apply alpha_pq_spec in Ea. apply pow_ray; assumption.
-Qed.
+(** [ray_cone_pow] (every exponent) is at the end of the file. *)
 
 Lemma pow_swap (A : R) (q : nat) : (A ^ q) ^ 2 = (A ^ 2) ^ q.
 Proof. rewrite <- !pow_mult. f_equal. lia. Qed.
@@ -850,8 +838,9 @@ Proof.
     apply genpow_ray; [exact Hsum | exact Hq | lia | lia | exact Ht | exact Hu | exact Hv].
 Qed.
 
-(** * E. the real-exponent statement (for reference; the solver's cones use the dyadic
-    exponents above).  [pw x a] is x^a for x >= 0, a > 0. *)
+(** * E. the real-exponent power cone ([in_pow_real] of Term/Spec.v: the power cones whose
+    exponent is not a short dyadic).  [pw x a] is x^a for x >= 0, a > 0; it is the same function
+    as [Spec.rpow] ([pw_rpow]). *)
 Definition pw (x a : R) : R := if Rle_dec x 0 then 0 else Rpower x a.
 
 Lemma ln_le_sub1 (s : R) : 0 < s -> ln s <= s - 1.
@@ -946,4 +935,176 @@ Proof.
   replace (al * (x * (u / al)) + (1 - al) * (y * (v / (1 - al)))) with (x * u + y * v) in Ham
     by (field; lra).
   rewrite <- Rabs_mult in Hprod. pose proof (neg_le_Rabs (z * w)) as Habs. lra.
+Qed.
+
+Lemma pw_rpow (x a : R) : pw x a = rpow x a.
+Proof. reflexivity. Qed.
+
+(** ** pairing *)
+Theorem pair_pow_real_cone (al : R) (s z : list R) :
+  in_pow_real al s -> in_pow_real_dual al z -> 0 <= dot OpsR s z.
+Proof.
+  intros Hs Hz.
+  destruct s as [|x [|y [|z0 [|s3 s]]]]; try (simpl in Hs; contradiction).
+  destruct z as [|u [|v [|w [|z3 z]]]]; try (simpl in Hz; contradiction).
+  destruct Hs as [Hal [Hx [Hy Hs]]]. destruct Hz as [_ [Hu [Hv Hz]]].
+  rewrite !dot_cons, dot_nil_l.
+  pose proof (pair_pow_real al x y z0 u v w Hal Hx Hy Hu Hv Hs Hz) as Hp.
+  change (mul OpsR) with Rmult. change (add OpsR) with Rplus. change (zero OpsR) with 0. lra.
+Qed.
+
+Theorem pair_cone_pow (a : dy) (s z : list R) :
+  in_cone (KPow a) s -> in_dual (KPow a) z -> 0 <= dot OpsR s z.
+Proof.
+  intros [Hls Hs] [Hlz Hz].
+  destruct (alpha_pq a) as [[p q] | ] eqn:Ea.
+  - apply alpha_pq_spec in Ea. apply (pair_pow p q); assumption.
+  - apply (pair_pow_real_cone (d2R a)); assumption.
+Qed.
+
+(** ** homogeneity and superadditivity of  g (x, y) = x^al y^(1-al)  on the quadrant *)
+Lemma pw_mult (t x a : R) : 0 <= t -> 0 <= x -> pw (t * x) a = pw t a * pw x a.
+Proof.
+  intros Ht Hx.
+  destruct (Req_dec t 0) as [Ht0 | Htn]; [rewrite Ht0, Rmult_0_l, pw_zero; ring | ].
+  destruct (Req_dec x 0) as [Hx0 | Hxn]; [rewrite Hx0, Rmult_0_r, pw_zero; ring | ].
+  assert (Htp : 0 < t) by lra. assert (Hxp : 0 < x) by lra.
+  assert (Htx : 0 < t * x) by (apply Rmult_lt_0_compat; assumption).
+  rewrite !pw_pos_eq by assumption.
+  symmetry. apply Rpower_mult_distr; assumption.
+Qed.
+
+Lemma pw_split (t al : R) : 0 <= t -> pw t al * pw t (1 - al) = t.
+Proof.
+  intros Ht. destruct (Req_dec t 0) as [H0 | Hn]; [rewrite H0, pw_zero; ring | ].
+  assert (Htp : 0 < t) by lra.
+  rewrite !pw_pos_eq by exact Htp. rewrite <- Rpower_plus.
+  replace (al + (1 - al)) with 1 by ring. apply Rpower_1. exact Htp.
+Qed.
+
+Definition gmr (al x y : R) : R := pw x al * pw y (1 - al).
+
+Lemma gmr_nonneg (al x y : R) : 0 <= gmr al x y.
+Proof. unfold gmr. apply Rmult_le_pos; apply pw_nonneg. Qed.
+
+Lemma gmr_zero_l (al y : R) : gmr al 0 y = 0.
+Proof. unfold gmr. rewrite pw_zero. ring. Qed.
+Lemma gmr_zero_r (al x : R) : gmr al x 0 = 0.
+Proof. unfold gmr. rewrite pw_zero. ring. Qed.
+
+Lemma gmr_scale (al t x y : R) :
+  0 <= t -> 0 <= x -> 0 <= y -> gmr al (t * x) (t * y) = t * gmr al x y.
+Proof.
+  intros Ht Hx Hy. unfold gmr. rewrite !pw_mult by assumption.
+  transitivity ((pw t al * pw t (1 - al)) * (pw x al * pw y (1 - al))); [ring | ].
+  rewrite pw_split by exact Ht. reflexivity.
+Qed.
+
+Lemma div_nonneg (a b : R) : 0 <= a -> 0 < b -> 0 <= a / b.
+Proof.
+  intros Ha Hb. unfold Rdiv. apply Rmult_le_pos; [exact Ha | ]. apply Rlt_le, Rinv_0_lt_compat, Hb.
+Qed.
+
+(** the share of (x, y) in (X, Y), through the real AM-GM inequality *)
+Lemma gmr_part (al x y X Y : R) :
+  0 < al < 1 -> 0 <= x -> 0 <= y -> 0 < X -> 0 < Y ->
+  gmr al x y <= gmr al X Y * (al * (x / X) + (1 - al) * (y / Y)).
+Proof.
+  intros [Ha0 Ha1] Hx Hy HX HY.
+  pose proof (div_nonneg x X Hx HX) as HxX. pose proof (div_nonneg y Y Hy HY) as HyY.
+  assert (HS : 0 <= al * (x / X) + (1 - al) * (y / Y)).
+  { assert (H1 : 0 <= al * (x / X)) by (apply Rmult_le_pos; lra).
+    assert (H2 : 0 <= (1 - al) * (y / Y)) by (apply Rmult_le_pos; lra). lra. }
+  pose proof (gmr_nonneg al X Y) as HG.
+  destruct (Req_dec x 0) as [Hx0 | Hxn].
+  { rewrite Hx0 at 1. rewrite gmr_zero_l. apply Rmult_le_pos; assumption. }
+  destruct (Req_dec y 0) as [Hy0 | Hyn].
+  { rewrite Hy0 at 1. rewrite gmr_zero_r. apply Rmult_le_pos; assumption. }
+  assert (HxXp : 0 < x / X) by (unfold Rdiv; apply Rmult_lt_0_compat; [lra | apply Rinv_0_lt_compat; exact HX]).
+  assert (HyYp : 0 < y / Y) by (unfold Rdiv; apply Rmult_lt_0_compat; [lra | apply Rinv_0_lt_compat; exact HY]).
+  assert (Ex : pw x al = pw X al * pw (x / X) al).
+  { rewrite <- pw_mult by lra. f_equal. field. lra. }
+  assert (Ey : pw y (1 - al) = pw Y (1 - al) * pw (y / Y) (1 - al)).
+  { rewrite <- pw_mult by lra. f_equal. field. lra. }
+  pose proof (amgm_real al (x / X) (y / Y) (conj Ha0 Ha1) HxXp HyYp) as Ham.
+  unfold gmr in *. rewrite Ex, Ey. rewrite (pw_pos_eq (x / X)), (pw_pos_eq (y / Y)) by assumption.
+  replace (pw X al * Rpower (x / X) al * (pw Y (1 - al) * Rpower (y / Y) (1 - al)))
+    with (pw X al * pw Y (1 - al) * (Rpower (x / X) al * Rpower (y / Y) (1 - al))) by ring.
+  apply Rmult_le_compat_l; [exact HG | exact Ham].
+Qed.
+
+Theorem gmr_superadd (al x1 y1 x2 y2 : R) :
+  0 < al < 1 -> 0 <= x1 -> 0 <= y1 -> 0 <= x2 -> 0 <= y2 ->
+  gmr al x1 y1 + gmr al x2 y2 <= gmr al (x1 + x2) (y1 + y2).
+Proof.
+  intros Hal Hx1 Hy1 Hx2 Hy2.
+  destruct (Req_dec (x1 + x2) 0) as [HX0 | HXn].
+  { assert (E1 : x1 = 0) by lra. assert (E2 : x2 = 0) by lra. rewrite E1, E2, Rplus_0_l, !gmr_zero_l. lra. }
+  destruct (Req_dec (y1 + y2) 0) as [HY0 | HYn].
+  { assert (E1 : y1 = 0) by lra. assert (E2 : y2 = 0) by lra. rewrite E1, E2, Rplus_0_l, !gmr_zero_r. lra. }
+  assert (HX : 0 < x1 + x2) by lra. assert (HY : 0 < y1 + y2) by lra.
+  pose proof (gmr_part al x1 y1 _ _ Hal Hx1 Hy1 HX HY) as H1.
+  pose proof (gmr_part al x2 y2 _ _ Hal Hx2 Hy2 HX HY) as H2.
+  set (G := gmr al (x1 + x2) (y1 + y2)) in *.
+  set (S1 := al * (x1 / (x1 + x2)) + (1 - al) * (y1 / (y1 + y2))) in *.
+  set (S2 := al * (x2 / (x1 + x2)) + (1 - al) * (y2 / (y1 + y2))) in *.
+  assert (Hsum : S1 + S2 = 1) by (unfold S1, S2; field; lra).
+  assert (HG : G * S1 + G * S2 = G) by (rewrite <- Rmult_plus_distr_l, Hsum; ring).
+  lra.
+Qed.
+
+(** ** the real-exponent cone is closed under  a + t b,  t >= 0 *)
+Theorem pow_real_ray (al : R) (u v : list R) (t : R) :
+  0 <= t -> in_pow_real al u -> in_pow_real al v ->
+  in_pow_real al (vadd OpsR u (vscale OpsR t v)).
+Proof.
+  intros Ht Hu Hv.
+  destruct u as [|x1 [|y1 [|z1 [|u3 u]]]]; try (simpl in Hu; contradiction).
+  destruct v as [|x2 [|y2 [|z2 [|v3 v]]]]; try (simpl in Hv; contradiction).
+  destruct Hu as [Hal [Hx1 [Hy1 Hu]]]. destruct Hv as [_ [Hx2 [Hy2 Hv]]].
+  rewrite !vscale_cons, !vadd_cons.
+  change (vadd OpsR [] (vscale OpsR t [])) with (@nil R).
+  cbn [in_pow_real].
+  assert (Htx : 0 <= t * x2) by (apply Rmult_le_pos; assumption).
+  assert (Hty : 0 <= t * y2) by (apply Rmult_le_pos; assumption).
+  split; [exact Hal | split; [lra | split; [lra | ]]].
+  change (Rabs (z1 + t * z2) <= gmr al (x1 + t * x2) (y1 + t * y2)).
+  change (Rabs z1 <= gmr al x1 y1) in Hu. change (Rabs z2 <= gmr al x2 y2) in Hv.
+  pose proof (gmr_superadd al x1 y1 (t * x2) (t * y2) Hal Hx1 Hy1 Htx Hty) as Hsup.
+  rewrite gmr_scale in Hsup by assumption.
+  assert (Htz : t * Rabs z2 <= t * gmr al x2 y2) by (apply Rmult_le_compat_l; assumption).
+  apply Rle_trans with (Rabs z1 + Rabs (t * z2)); [apply Rabs_triang | ].
+  rewrite Rabs_mult, (Rabs_right t) by lra. lra.
+Qed.
+
+Theorem ray_cone_pow (a : dy) (u v : list R) (t : R) :
+  0 <= t -> in_cone (KPow a) u -> in_cone (KPow a) v ->
+  in_cone (KPow a) (vadd OpsR u (vscale OpsR t v)).
+Proof.
+  intros Ht [Hlu Hu] [Hlv Hv]. split.
+  - rewrite vadd_length; [exact Hlu | rewrite vscale_length; lia].
+  - destruct (alpha_pq a) as [[p q] | ] eqn:Ea.
+    + apply alpha_pq_spec in Ea. apply pow_ray; assumption.
+    + apply pow_real_ray; assumption.
+Qed.
+
+(** ** the real-exponent dual cone is closed under positive scaling (used by Cross/Cones.v) *)
+Theorem in_pow_real_dual_scale (al lam : R) (z : list R) :
+  0 < lam -> in_pow_real_dual al z -> in_pow_real_dual al (vscale OpsR lam z).
+Proof.
+  intros Hl Hz.
+  destruct z as [|u [|v [|w [|z3 z]]]]; try (simpl in Hz; contradiction).
+  destruct Hz as [Hal [Hu [Hv Hz]]].
+  rewrite !vscale_cons. change (vscale OpsR lam []) with (@nil R). cbn [in_pow_real_dual].
+  assert (Hlu : 0 <= lam * u) by (apply Rmult_le_pos; lra).
+  assert (Hlv : 0 <= lam * v) by (apply Rmult_le_pos; lra).
+  split; [exact Hal | split; [exact Hlu | split; [exact Hlv | ]]].
+  destruct Hal as [Ha0 Ha1].
+  change (Rabs (lam * w) <= gmr al (lam * u / al) (lam * v / (1 - al))).
+  change (Rabs w <= gmr al (u / al) (v / (1 - al))) in Hz.
+  replace (lam * u / al) with (lam * (u / al)) by (field; lra).
+  replace (lam * v / (1 - al)) with (lam * (v / (1 - al))) by (field; lra).
+  rewrite gmr_scale; [ | lra | apply div_nonneg; lra | apply div_nonneg; lra].
+  rewrite Rabs_mult, (Rabs_right lam) by lra.
+  apply Rmult_le_compat_l; [lra | exact Hz].
 Qed.
